@@ -451,6 +451,17 @@ int main(int argc, char **argv) {
 	if (cmd == "trace") return cmd_trace(argc, argv);
 	if (cmd == "distinct") return cmd_distinct(argc, argv);
 	if (cmd == "c06dump" && argc >= 5) { int rc = c06_dump(strtoull(argv[2], nullptr, 0), strtoull(argv[3], nullptr, 0), argv[4]); fflush(nullptr); _exit(rc); }
+	if (cmd == "archive" && argc >= 4) {
+		// the archive bytes a plan stands for (to run the plain tool on them outside the simulator)
+		Plan p; std::string err;
+		if (!Plan::from_text(read_file(argv[2]), p, err)) { fprintf(stderr, "%s\n", err.c_str()); return 2; }
+		BuiltArchive a = build_archive(p);
+		std::ofstream f(argv[3], std::ios::binary);
+		f.write((const char *) a.bytes.data(), (std::streamsize) a.bytes.size());
+		f.close();
+		fflush(nullptr);
+		_exit(f.good() ? 0 : 2);
+	}
 	if (cmd == "mkcorpus") return corpus_tool_main(argc, argv);
 	if (cmd == "selftest") return selftest_main(argc, argv);
 	fprintf(stderr, "unknown command %s\n", cmd.c_str());
